@@ -714,3 +714,18 @@ void automata_tick(automata *mapping,
         }
     }
 }
+
+#ifdef LLTD_VERIF_HOOKS
+/* verification view: the inactivity timeout (seconds) of every state of an automaton, in state order.
+ * Returns the number of states (at most cap of them are written). */
+size_t lltd_verif_automata_timeouts(const automata *autom, int *out, size_t cap) {
+    if (!autom || !out) {
+        return 0;
+    }
+    size_t n = autom->states_no;
+    for (size_t i = 0; i < n && i < cap; i++) {
+        out[i] = autom->states_table[i].timeout;
+    }
+    return n;
+}
+#endif
